@@ -277,8 +277,20 @@ func (x *Exec) execAlloc(st *State, in *ssa.Alloc) {
 		return
 	}
 	if _, isStruct := et.Underlying().(*types.Struct); in.Heap && isStruct && isOpaqueNamed(et) {
-		// heap object of an external (opaque) struct type: a fresh reference without modelled fields
-		x.setReg(in, scalar(x.newRef(st, in.Comment), in.Type()))
+		// heap object of an external (opaque) struct type: a fresh reference; its scalar fields (which assumed
+		// contracts may name, e.g. strings.Builder's buffer) start at their zero values
+		r := x.newRef(st, in.Comment)
+		if stt, ok := et.Underlying().(*types.Struct); ok {
+			for i := 0; i < stt.NumFields(); i++ {
+				f := stt.Field(i)
+				if fk, fs := classify(f.Type()); fk == TScalar && (fs == SStr || fs == SInt || fs == SBool) {
+					key := ptrKey(et, f.Name())
+					h := x.heapGet(st, key, arr(SInt, fs))
+					x.heapSet(st, key, tStore(h, r, zeroTerm(fs)))
+				}
+			}
+		}
+		x.setReg(in, scalar(r, in.Type()))
 		return
 	}
 	if at, isArr := et.Underlying().(*types.Array); isArr && !isByteArr(et) {
